@@ -1449,8 +1449,16 @@ fn main() {
     if !tot.build_errors.is_empty() {
         vh::machinery_failure(&format!("{} histories could not be executed, first: {}", tot.build_errors.len(), tot.build_errors[0]));
     }
-    if !tot.canon_unsound.is_empty() {
-        vh::machinery_failure(&format!("canonical state is missing a field (merged histories diverge): {}", tot.canon_unsound[0]));
+    // The abstraction cross-check guards COMPLETENESS of the deduplicated search (a missing field
+    // could hide states); it says nothing against violations that complete executions already
+    // produced. A change that makes a forbidden call mutate hidden state trips both at once: then
+    // the violations are the verdict (they are reported below and the divergence is kept in the
+    // evidence); without any violation a divergence is a defect of the machinery.
+    let canon_divergence = tot.canon_unsound.first().cloned();
+    if let Some(d) = &canon_divergence {
+        if all_found.is_empty() {
+            vh::machinery_failure(&format!("canonical state is missing a field (merged histories diverge): {d}"));
+        }
     }
     if all_found.is_empty() && (tot.outcome_classes.len() < 8 || tot.ok_calls == 0 || tot.err_calls == 0) {
         vh::machinery_failure("vacuous run: too few distinct call outcomes");
@@ -1491,6 +1499,9 @@ fn main() {
     rep.set("panicking_calls", tot.panic_calls);
     rep.set("panic_classes_(not_judged)", json!(tot.outcome_classes.iter().filter(|c| c.contains(";panic:")).collect::<Vec<_>>()));
     rep.set("merged_history_pairs_cross_checked", tot.merged_pairs_checked);
+    if let Some(d) = &canon_divergence {
+        rep.set("canonical_state_divergence_alongside_violations", json!(d));
+    }
     rep.set("alphabet", json!(LETTER_NAMES));
     rep.set("combos", json!(per_combo));
     rep.set("outcome_classes", json!(tot.outcome_classes));
